@@ -18,6 +18,12 @@ FlowNext == \/ \E m \in Minerals :
             \/ UpdAllNext
             \/ \E ms \in FSeqs, par \in Pars : VoigtOk(ms, par) \/ VoigtRejected(ms, par)
 FlowSpec == Init /\ [][FlowNext]_vars
+\* the same workflow with faulting client callables (C07): a callable handed over by the client raises at the
+\* first evaluation, part-way through the interval or just before its end, in single and in bulk updates
+FaultNext == \/ FlowNext
+             \/ \E m \in Minerals, fl \in Flows, par \in Pars, fc \in FaultCodes : UpdateFaulted(m, fl, par, fc)
+             \/ \E ms \in Pairs, fl \in Flows, par \in Pars, fc \in FaultCodes : UpdateAllFaulted(ms, fl, par, fc)
+FaultSpec == Init /\ [][FaultNext]_vars
 \* composition lemma: minerals with unequal snapshot counts (e.g. after a bulk update refused part-way)
 \* can never be averaged together, and VoigtOk / VoigtRejected partition the live sequences
 UnequalNeverAveraged == \A ms \in Pairs, par \in Pars :
